@@ -273,4 +273,91 @@ def monRun : (commit : Nat) → (first : Nat) → List POp → List POut → Opt
            | none => monRun ob.c ob.first ops os)
       | _, _ => monRun c f ops os
 
+
+/-! ## The per-follower replication worker for a peer below the purge boundary
+
+  Models d-engine-core/src/raft_role/leader_state.rs `execute_and_process_raft_rpc` Phase 5 / Phase 6 (per-peer
+  backoff window `snapshot_next_retry_at`), `send_to_worker_or_spawn`, `run_replication_worker` (one
+  `snapshot_in_progress` flag per worker: set when a `Snapshot` task is taken, cleared when the push completes —
+  successfully or not; while set, `Snapshot` and `Append` tasks are dropped), `handle_snapshot_push_completed`
+  (failure counter, `snapshot_push_backoff_duration` = min(base · 2^min(count,20), cap)) and raft.rs
+  `SnapshotPushCompleted{success}` → `init_peers_next_index_and_match_index(last, [peer])`.
+  One step = one heartbeat round `dt` ms after the previous one (dt ≥ the heartbeat interval), the push attempt
+  completes within the round; the transport's push fails `failsLeft` more times. -/
+
+structure WState where
+  first : Nat
+  last : Nat
+  snap : Option Nat
+  base : Nat
+  cap : Nat
+  now : Nat
+  next : Nat                  -- leader's next_index for the peer
+  failsLeft : Nat             -- environment: how many more pushes fail
+  failCount : Nat             -- `snapshot_failure_count`
+  retryAt : Option Nat        -- `snapshot_next_retry_at`
+  inProgress : Bool           -- the worker's `snapshot_in_progress`
+deriving Repr
+
+inductive WCall where
+  | pushFailed
+  | pushOk
+  | append (prev : Nat)
+deriving Repr, DecidableEq
+
+/-- `snapshot_push_backoff_duration(failure_count, policy)` in ms -/
+def pushBackoff (base cap count : Nat) : Nat := min (base * 2 ^ (min count 20)) cap
+
+def wStep (s0 : WState) (dt : Nat) : WState × List WCall :=
+  let s := { s0 with now := s0.now + dt }
+  if s.first > 1 ∧ s.next < s.first then
+    -- snapshot target (prepare_batch_requests); Phase 6
+    match s.snap with
+    | none => (s, [])
+    | some _ =>
+        let inBackoff := match s.retryAt with
+          | some r => decide (s.now < r)
+          | none => false
+        if inBackoff then (s, [])
+        else if s.inProgress then (s, [])            -- worker drops the duplicate Snapshot task
+        else if s.failsLeft > 0 then
+          -- flag set, push fails, flag cleared, SnapshotPushCompleted{false}
+          let c := s.failCount + 1
+          ({ s with failsLeft := s.failsLeft - 1, inProgress := false, failCount := c,
+                    retryAt := some (s.now + pushBackoff s.base s.cap c) }, [.pushFailed])
+        else
+          ({ s with inProgress := false, failCount := 0, retryAt := none, next := s.last + 1 }, [.pushOk])
+  else
+    -- AppendEntries: prev = next - 1, entries next..=last, speculative next_index advance
+    let s' := if s.next ≤ s.last then { s with next := s.last + 1 } else s
+    if s.inProgress then (s', []) else (s', [.append (s.next - 1)])
+
+def wRun : WState → List Nat → List (List WCall × Nat)
+  | _, [] => []
+  | s, dt :: dts => let (s', cs) := wStep s dt; (cs, s'.next) :: wRun s' dts
+
+/-- monitor of the worker kind, on the implementation's per-round observations (calls, next_index) -/
+def wMon (first last : Nat) (snap : Option Nat) (base cap : Nat) :
+    (now next failCount : Nat) → (retryAt : Option Nat) → List Nat → List (List WCall × Nat) → Option String
+  | _, _, _, _, [], _ => none
+  | _, _, _, _, _ :: _, [] => some "missing-observation"
+  | now0, next, fc, ra, dt :: dts, (calls, next') :: os =>
+      let now := now0 + dt
+      let target := decide (first > 1) && decide (next < first)
+      let pushed := calls.contains .pushFailed || calls.contains .pushOk
+      let due := target && snap.isSome && (match ra with | some r => decide (r ≤ now) | none => true)
+      if due && !pushed then
+        some (if fc > 0 then "peer-never-served-after-failed-push" else "lagging-peer-push-not-attempted")
+      else if target && snap.isNone then some "lagging-peer-no-snapshot"
+      else if !target && !(calls.any (fun c => match c with | .append _ => true | _ => false)) then
+        some "peer-append-dropped"
+      else if calls.contains .pushOk && next' != last + 1 then some "next-index-not-reset-after-push"
+      else if calls.contains .pushOk && (match snap with | some m => decide (m + 1 < first) | none => true) then
+        some "pushed-snapshot-behind-boundary"
+      else
+        let fc' := if calls.contains .pushOk then 0 else if calls.contains .pushFailed then fc + 1 else fc
+        let ra' := if calls.contains .pushOk then none
+                   else if calls.contains .pushFailed then some (now + pushBackoff base cap (fc + 1)) else ra
+        wMon first last snap base cap now next' fc' ra' dts os
+
 end DEngine.Purge
